@@ -12,6 +12,8 @@ from ..r_codebooks import rule_not_bond_complement as _rule_notbond
 from ..r_round8 import rule_stereo_gates as _r8_gates
 from ..r_round9 import rule_or_list_one_primitive as _r9_or
 
+from ..r_round10 import rule_target_numbers_on_target as _r10_tn
+
 LEVEL = 'other'
 
 
@@ -39,3 +41,4 @@ def run(ck, repo):
     _rule_notbond(ck, repo, 'C08.D5-not-bond-complement')
     _r8_gates(ck, repo, 'C08.D6-stereo-gates')
     _r9_or(ck, repo, 'C08.D7-or-list-one-primitive')
+    _r10_tn(ck, repo, 'C08.D8-target-numbers')
